@@ -94,7 +94,7 @@ func (c *Cluster) newLeader(snap []byte, from int) {
 		}
 	}
 	c.L.GC.SetEnabled(true)
-	c.Shell = consul.VerifNewShell(nil, c.L.FSM, c.L.GC, &consul.VerifHooks{RaftApply: c.hookRaftApply})
+	c.Shell = consul.VerifNewShell(nil, c.L.FSM, c.L.GC, &consul.VerifHooks{RaftApply: c.hookRaftApply, IsLeader: func() bool { return true }})
 	if err := consul.VerifInitializeSessionTimers(c.Shell); err != nil {
 		panic(err)
 	}
